@@ -420,10 +420,18 @@ func (scopes *scopes) Exit() {
 
 	// Check for goto statements referring non-defined labels.
 	if scopes.isFuncBlock() {
+		// Report the first one in the source, not the first one in the
+		// iteration order of the map.
+		var undefined string
+		var pos *ast.Position
 		for name, lbl := range scopes.s[c].fn.labels {
-			if lbl.node == nil {
-				panic(checkError(scopes.path, lbl.gotos[0].pos, "label %s not defined", name))
+			if lbl.node == nil && (pos == nil || lbl.gotos[0].pos.Start < pos.Start) {
+				undefined = name
+				pos = lbl.gotos[0].pos
 			}
+		}
+		if pos != nil {
+			panic(checkError(scopes.path, pos, "label %s not defined", undefined))
 		}
 	}
 
